@@ -30,6 +30,9 @@ RULES = {
     'R-TAB': ('r_layout', 'rule_TAB', 'default'),
     'R-SPLIT': ('r_layout', 'rule_SPLIT', 'default'),
     'R-BITS': ('r_arith', 'rule_BITS', 'default'),
+    'R-SMP': ('r_layout', 'rule_SMP', 'default'),
+    'R-CMP': ('r_guard', 'rule_CMP', 'default'),
+    'R-HINT': ('r_layout', 'rule_HINT', 'default'),
 }
 
 _cache = {}
@@ -104,6 +107,9 @@ TEXT = {
              'fields fit below the absolute counter, 2^w > largest in-block count; (c) hint periods exceed block sizes, duplicated constants agree; computed relative overheads stay under the stated bounds.',
     'R-SPLIT': 'R-SPLIT: wherever one position is split into quotient and remainder by a power of two (word/bit, line/offset, block/offset, group/sub-group; 30 confirmed sites), the shift/divisor and the mask/modulus agree.',
     'R-BITS': 'R-BITS: builder, rank, rank_prefetch (both phases), select and get of one tree family extract the level fragment with the same mask (3 quad / 1 binary), move the loop-carried shift by the fragment width and rebuild symbols by the same width.',
+    'R-SMP': 'R-SMP: select samples of RSSupportPlain: the writer stores the superblock of occurrences 0, N, 2N, ... (tests the counter before incrementing it) and the reader, composed with its caller, looks up slot k / N for the 0-based occurrence k, with the same N.',
+    'R-CMP': 'R-CMP: within one function the same two quantities are never compared with two different strictnesses (coarse and linear phase of a search test one predicate).',
+    'R-HINT': 'R-HINT: in RSNarrow::new / RSWide::new the counter tested against the hint period already includes the population of the line being scanned (a variable of the numerator is updated from a popcount in a block dominating the test).',
     'R-TAB': 'R-TAB: the compiler-evaluated K_SELECT_IN_BYTE is compared with its definition for all 2048 entries (exhaustive).',
 }
 
@@ -124,36 +130,36 @@ EXPL = ('Static analysis of the type-checked program (MIR, ADT/impl metadata, ev
         'configurations. Decides the structural clauses listed under `rule` -- necessary conditions of the property that are visible in the shape '
         'of the code on every path -- and NOT the input/output behaviour, which quantifies over runtime values. ')
 
-_p('C01', ['R-G', 'R-SIB', 'R-E', 'R-O', 'R-W', 'R-TW', 'R-DEL', 'R-LAY', 'R-BITS', 'R-SPLIT'], 'other',
+_p('C01', ['R-G', 'R-SIB', 'R-E', 'R-O', 'R-W', 'R-TW', 'R-DEL', 'R-LAY', 'R-BITS', 'R-SPLIT', 'R-SMP', 'R-CMP'], 'other',
    EXPL + 'C01: validation of QWaveletTree get/rank/rank_prefetch/select, empty/default state, argument arithmetic, symbol width in builder/partition/readers, construction paths.',
    'that ranks/offsets compose to the right count and position across levels; sigma / n_levels arithmetic; that stable_partition_of_4 is a stable permutation')
-_p('C02', ['R-G', 'R-SIB', 'R-E', 'R-O', 'R-W', 'R-LVL', 'R-TW', 'R-DEL', 'R-LAY', 'R-BITS', 'R-SPLIT'], 'other',
+_p('C02', ['R-G', 'R-SIB', 'R-E', 'R-O', 'R-W', 'R-LVL', 'R-TW', 'R-DEL', 'R-LAY', 'R-BITS', 'R-SPLIT', 'R-SMP'], 'other',
    EXPL + 'C02: validity test (symbol has a code) on rank/rank_prefetch/select, its width, empty state, level-write guard and provenance of code lengths, construction paths.',
    'correctness of craft_wm_codes (prefix-freeness, ordering), independence from hash-map tie order, decode-table search, code lengths beyond 16 levels')
-_p('C03', ['R-G', 'R-SIB', 'R-E', 'R-O', 'R-W', 'R-LVL', 'R-TW', 'R-DEL', 'R-LAY', 'R-BITS', 'R-SPLIT'], 'other',
+_p('C03', ['R-G', 'R-SIB', 'R-E', 'R-O', 'R-W', 'R-LVL', 'R-TW', 'R-DEL', 'R-LAY', 'R-BITS', 'R-SPLIT', 'R-HINT'], 'other',
    EXPL + 'C03: validation of WT/HWT get/rank/select in both specialisations, symbol carried in the element type, empty state, level-write guard, construction paths.',
    'wavelet-matrix arithmetic, binwt::craft_wm_codes table bounds for degenerate alphabets (loop-carried indices), tie orders')
-_p('C04', ['R-G', 'R-E', 'R-O', 'R-UNS', 'R-SIB', 'R-LAY', 'R-DA', 'R-DBG'], 'other',
+_p('C04', ['R-G', 'R-E', 'R-O', 'R-UNS', 'R-SIB', 'R-LAY', 'R-DA', 'R-DBG', 'R-SMP', 'R-CMP'], 'other',
    EXPL + 'C04: every unchecked access is behind the documented guard, empty/default states reach no trap, argument arithmetic is bounded, unchecked API is unsafe, '
    'raw views match layouts.',
    'index arithmetic inside search loops (select_block, select*_subblock, block_predecessor, DArray word scan: sentinel invariants over stored data), CPU feature of _popcnt64, allocation failure')
-_p('C05', ['R-G', 'R-SIB', 'R-E', 'R-TW', 'R-LAY', 'R-DEL', 'R-DA', 'R-SPLIT'], 'other',
+_p('C05', ['R-G', 'R-SIB', 'R-E', 'R-TW', 'R-LAY', 'R-DEL', 'R-DA', 'R-SPLIT', 'R-SMP', 'R-CMP'], 'other',
    EXPL + 'C05: validation of RSQVector get/rank/select/occs/occs_smaller, packed superblock record (writer/reader agreement), sampling constants, twins.',
    'counter contents, the sampled search, in-block select, per-symbol totals being prefix sums')
-_p('C06', ['R-G', 'R-SIB', 'R-E', 'R-TW', 'R-LAY', 'R-DEL', 'R-SPLIT'], 'other',
+_p('C06', ['R-G', 'R-SIB', 'R-E', 'R-TW', 'R-LAY', 'R-DEL', 'R-SPLIT', 'R-CMP', 'R-HINT'], 'other',
    EXPL + 'C06: validation of RSNarrow/RSWide get/rank1/select1/select0, rank0 = i - rank1, empty state, packed counters and hint periods.',
    'counter construction and the hint/linear search')
 _p('C07', ['R-DAR', 'R-G', 'R-E', 'R-TW', 'R-DEL', 'R-LAY', 'R-SPLIT'], 'other',
    EXPL + 'C07: writer/reader agreement on the shared inventories, the u16 narrowing bound, flush trigger, select guards, default state.',
    'the word scan and sign-encoded pointers')
-_p('C08', ['R-SIB', 'R-NON', 'R-O', 'R-G', 'R-TW', 'R-LAY', 'R-E', 'R-SPLIT'], 'other',
+_p('C08', ['R-SIB', 'R-NON', 'R-O', 'R-G', 'R-TW', 'R-LAY', 'R-E', 'R-SPLIT', 'R-CMP'], 'other',
    EXPL + 'C08: BitVector vs BitVectorMut readers validate identically, cached population count depends on overwritten bits, conversions move every field, get_bits arithmetic.',
    'bit-level effect of set_symbol, word reads and position iterators over arbitrary histories')
 _p('C09', ['R-PF', 'R-EFF', 'R-SIB', 'R-LAY', 'R-BITS'], 'other',
    EXPL + 'C09: rank_prefetch validates like rank and returns exactly rank_unchecked on the untouched arguments; prefetch addresses use wrapping arithmetic and only reach the '
    'intrinsic; positions feed only hints; bodies are feature-independent.',
    'that the estimates stay within the next level where they are re-used as arguments of approx_rank_unchecked / rank_block_unchecked (an invariant over data)')
-_p('C10', ['R-TW', 'R-DA', 'R-DBG', 'R-G', 'R-UNS'], 'other',
+_p('C10', ['R-TW', 'R-DA', 'R-DBG', 'R-G', 'R-UNS', 'R-O'], 'other',
    EXPL + 'C10: twin shapes make checked and unchecked values equal by construction; debug assertions equal the documented precondition; build profiles differ only by assertions.',
    'whether the shared unchecked body is itself correct (C01-C08)')
 _p('C11', ['R-SER', 'R-AUTO', 'R-EFF'], 'proof',
